@@ -203,6 +203,7 @@ def laplacian_edges(
         AssertionError : Fails if the mesh is not triangular.
     """
     assert mesh.is_triangular()
+    m = len(mesh.edges)
     n_coeffs = 4*len(mesh.face_corners)
     if cotan:
         if mesh.face_corners.has_attribute("cotan"):
@@ -234,7 +235,7 @@ def laplacian_edges(
         rows[_c], cols[_c], coeffs[_c], _c = e1, e1, -coeff, _c+1 
         rows[_c], cols[_c], coeffs[_c], _c = e2, e2, -coeff, _c+1 
 
-    mat = sp.csc_matrix((coeffs,(rows,cols)), dtype= (complex if connection else np.float64))
+    mat = sp.csc_matrix((coeffs,(rows,cols)), shape=(m,m), dtype= (complex if connection else np.float64))
     return mat
 
 
